@@ -391,50 +391,58 @@ class Graph:
             self.out.setdefault(a, []).append(i)
 
     def edge_cover(self, rng, max_paths=None, max_len=200, want=None):
-        """Paths from the initial state that together traverse every edge at least once: repeated
-        walks that prefer uncovered edges and otherwise head (BFS) for the nearest uncovered one."""
+        """Paths from the initial state that together traverse every (wanted) edge at least once.  One breadth-first tree
+        from the initial state gives a shortest prefix to every state; each path is the prefix to the source of a still
+        uncovered edge, that edge, and then a greedy walk over further uncovered edges.  Linear in edges x path length
+        (the earlier version searched the graph again for every path, which took hours on the thorough graphs)."""
         from collections import deque
-        uncovered = {i for i in range(len(self.edges)) if want is None or want(self.edges[i][1])}
+        wanted = [i for i in range(len(self.edges)) if want is None or want(self.edges[i][1])]
+        uncovered = set(wanted)
+        parent, depth, q = {self.init: None}, {self.init: 0}, deque([self.init])
+        while q:
+            u = q.popleft()
+            for i in self.out.get(u, []):
+                v = self.edges[i][2]
+                if v not in parent:
+                    parent[v] = (u, i)
+                    depth[v] = depth[u] + 1
+                    q.append(v)
+        unc_out = {}
+        for i in uncovered:
+            unc_out.setdefault(self.edges[i][0], set()).add(i)
+        # deepest sources first: the greedy tail of a path then covers edges near the end of the protocol, and the
+        # prefixes cover many shallow edges on the way
+        order = sorted((i for i in wanted if self.edges[i][0] in parent), key=lambda i: (-depth[self.edges[i][0]], rng.random()))
         paths = []
-        while uncovered and (max_paths is None or len(paths) < max_paths):
-            path, s, progress = [], self.init, False
-            while len(path) < max_len:
-                cand = [i for i in self.out.get(s, []) if i in uncovered]
-                if cand:
-                    e = rng.choice(cand)
-                else:
-                    # BFS to the nearest state having an uncovered out-edge
-                    prev, q, goal = {s: None}, deque([s]), None
-                    while q and goal is None:
-                        u = q.popleft()
-                        for i in self.out.get(u, []):
-                            v = self.edges[i][2]
-                            if v not in prev:
-                                prev[v] = (u, i)
-                                if any(j in uncovered for j in self.out.get(v, [])):
-                                    goal = v
-                                    break
-                                q.append(v)
-                    if goal is None:
-                        break
-                    seg, v = [], goal
-                    while prev[v] is not None:
-                        u, i = prev[v]
-                        seg.append(i)
-                        v = u
-                    seg.reverse()
-                    if len(path) + len(seg) >= max_len:
-                        break
-                    for i in seg:
-                        path.append(i)
-                    s = goal
-                    continue
-                path.append(e)
-                uncovered.discard(e)
-                progress = True
-                s = self.edges[e][2]
-            if not progress:
+
+        def take(i, path):
+            path.append(i)
+            if i in uncovered:
+                uncovered.discard(i)
+                unc_out[self.edges[i][0]].discard(i)
+
+        for e in order:
+            if e not in uncovered:
+                continue
+            if max_paths is not None and len(paths) >= max_paths:
                 break
+            prefix, v = [], self.edges[e][0]
+            while parent[v] is not None:
+                u, i = parent[v]
+                prefix.append(i)
+                v = u
+            prefix.reverse()
+            if len(prefix) + 1 > max_len:
+                continue
+            path = []
+            for i in prefix:
+                take(i, path)
+            take(e, path)
+            s = self.edges[e][2]
+            while len(path) < max_len and unc_out.get(s):
+                i = rng.choice(sorted(unc_out[s]))
+                take(i, path)
+                s = self.edges[i][2]
             paths.append([self.edges[i][1] for i in path])
         return paths, len(uncovered)
 
